@@ -1373,6 +1373,22 @@ package kafka
 //@   ensures err == nil && retries > 0 ==> gen.$lastok
 //@   loop 0 invariant 0 <= attempt && (attempt > 0 ==> err != nil)
 
+// Synchronous commits: whatever the commit loop answers a waiting CommitMessages call with, a nil answer is given only
+// when the coordinator acknowledged the commit that covered the request (the last CommitOffsets of the retry helper
+// succeeded) - also for the requests drained when the generation ends.
+//@ func (offsetStash).reset
+//@   requires o != nil
+//@   option noframe
+//@   modifies heap
+//@   ensures forall kid ref :: !inmap(o, kid)
+//@   loop 0 invariant forall kid ref :: inmap(o, kid) ==> iterdom(kid) && !visited(kid)
+//@ func (*Reader).commitLoopImmediate
+//@   option noframe
+//@   modifies heap
+//@   callsite send requires $1 == nil ==> gen.$lastok
+//@   loop 0 invariant offsets != nil && (forall kid ref :: inmap(offsets, kid) ==> mapat(offsets, kid) != nil)
+//@   loop 1 invariant offsets != nil && (forall kid ref :: inmap(offsets, kid) ==> mapat(offsets, kid) != nil)
+
 //@ property C02 C17
 
 // Batch.readMessage moves the batch position only past what was delivered: by one record on success, and past the batch's
